@@ -18,7 +18,7 @@ ASSUMPTIONS = [
 def run(ctx):
     rng = random.Random(ctx.seed * 7919 + 16)
     n_arch, n_lrule = (4, 4) if ctx.quick else (5, 4)
-    mcs = [bc.model_check("arch", n_arch), bc.model_check("arch3", 6), bc.model_check("lrule", min(n_lrule, 5))]
+    mcs = [bc.model_check("arch", n_arch), bc.model_check("arch3", 6), bc.model_check("lrule", min(n_lrule, 5)), bc.model_check("lchain", 6)]
     specs, meta = [], {}
     hs, _ = bc.emit_histories("arch", n_arch)
     meta[f"histories_arch_upto_{n_arch}"] = len(hs)
@@ -30,6 +30,10 @@ def run(ctx):
     hs, _ = bc.emit_histories("lrule", n_lrule)
     meta[f"histories_lrule_upto_{n_lrule}"] = len(hs)
     specs += bc.specs_from("lrule", hs, asserts=bc.WORLDS[:1])
+    # well-shaped chains: every verb x access kind x object layer list (two layers in both orders, an undefined one)
+    hc, _ = bc.emit_histories("lchain", 6)
+    meta["layer_rule_chains_upto_6"] = len(hc)
+    specs += bc.specs_from("lrule", hc, asserts=bc.WORLDS)
     if not ctx.quick:      # a seeded sample of the 177 303 LayerRule histories of length <= 5 (all of them need > 20 GB)
         hs5, _ = bc.emit_histories("lrule", 5)
         hs5 = rng.sample(hs5, 40000)
